@@ -929,7 +929,13 @@ class Machine:
                     return
                 base_tok = t0[1] if isinstance(t0, list) else t0
                 self.nmut += 1
-                eps = 0.001 * (self.nmut + 1)
+                if self.nmut > 90:
+                    return
+                # pixel positions are compared with a tolerance (4.2e-4 at
+                # |x| = 42): their edits are 0.01 apart and at least 0.02 away
+                # from the menu value and its 'near'/'far' variants (<= 0.0042)
+                eps = (0.01 if kind in ('pixpos', 'pixverts') else 0.001) * \
+                    (self.nmut + 1)
                 v = getattr(to, f)
                 base = mk_value(kind, base_tok)
                 if kind == 'pixpos':
